@@ -138,7 +138,7 @@ impl<P: Payload> RbCore<P> {
     }
 
     fn enabled(&self, out: &mut Vec<Ev>) {
-        if self.model.len() < self.cap && ((self.next - self.base) as usize) < 3900 {
+        if self.model.len() < self.cap && ((self.next - self.base) as usize) < if cfg!(miri) { 300 } else { 3900 } {
             out.push(Ev::new(PUSH, 0, 0));
         }
         if !self.model.is_empty() {
